@@ -5,6 +5,7 @@ S == INSTANCE Spline
 
 \* integer knot vectors on 0..6: bounds 0 and 6 (or 5), strictly increasing or tied inner knots
 InnerSets == {<<>>} \cup {<<a>> : a \in 1..5} \cup {<<a, b>> : a \in 1..5, b \in 1..5} \cup {<<1, 3, 4>>, <<2, 2, 5>>, <<1, 2, 3, 5>>}
+             \cup {<<6>>, <<0>>, <<0, 3>>, <<3, 6>>, <<6, 6>>}          \* inner knots tied with a bound (df-derived knots do this on tied data)
 SortedNonDecr(q) == \A i \in 1..(Len(q) - 1) : q[i] <= q[i + 1]
 Grid == [i \in 1..19 |-> <<i - 4, 2>>]          \* the half-integer grid -3/2 .. 15/2 (incl. out-of-range points)
 Modes == {"raise", "clip", "na", "zero", "extend"}
@@ -40,7 +41,7 @@ EmitCase == Emit =>
 
 Init == \/ /\ kind = "bs" /\ inner \in {q \in InnerSets : SortedNonDecr(q) /\ Len(q) <= MaxInner} /\ d \in 0..MaxDegree
            /\ icpt \in BOOLEAN /\ mode \in Modes /\ cyclic = FALSE /\ (d >= 4 => Len(inner) <= 1)
-        \/ /\ kind = "cubic" /\ inner \in {q \in InnerSets : SortedNonDecr(q) /\ Len(q) <= MaxInner /\ \A i \in 1..(Len(q) - 1) : q[i] < q[i + 1]}
+        \/ /\ kind = "cubic" /\ inner \in {q \in InnerSets : SortedNonDecr(q) /\ Len(q) <= MaxInner /\ (\A i \in 1..(Len(q) - 1) : q[i] < q[i + 1]) /\ (\A i \in DOMAIN q : q[i] >= 1 /\ q[i] <= 5)}
            /\ cyclic \in BOOLEAN /\ (cyclic => Len(inner) >= 1) /\ d = 3 /\ icpt = FALSE /\ mode = "extend"
 Next == UNCHANGED vars
 Spec == Init /\ [][Next]_vars
